@@ -104,11 +104,12 @@ def all_elements(mesh):
     return out
 
 
-def check_state(eng, mesh, fail, want_tiling=True, want_vertices=True):
+def check_state(eng, mesh, fail, want_tiling=True, want_vertices=True, linear=False):
     """C02 invariants of one reachable state.  `fail(sig, what, model)` records a candidate."""
     vf = mesh._vf
     T, L = vf['ts'][-1], vf['xs'][-1]
     ref, leaves = ref_of(mesh)
+    prove = eng.prove_linear if linear else eng.prove
     # bookkeeping: leaf collection == childless elements reachable from the roots
     elems = all_elements(mesh)
     childless = [e for e in elems if not e.children]
@@ -132,7 +133,7 @@ def check_state(eng, mesh, fail, want_tiling=True, want_vertices=True):
         if all(c is True for c in cs):
             eng.stats['verdict_trivial'] = eng.stats.get('verdict_trivial', 0) + 1
             continue
-        ok, m = eng.prove(z3.And([z3bool(c) for c in cs]), 'ancestry')
+        ok, m = prove(z3.And([z3bool(c) for c in cs]), 'ancestry')
         if not ok:
             fail('ancestry', 'leaf %r is not the dyadic descendant %r of its root' % (e, r), m)
     # tiling in physical coordinates: a fresh point lies in exactly one half-open leaf box
@@ -143,7 +144,7 @@ def check_state(eng, mesh, fail, want_tiling=True, want_vertices=True):
             (a, b), (c, d) = e.time_interval, e.space_interval
             inside.append(z3.If(z3.And(z3bool(a <= pt), z3bool(pt < b), z3bool(c <= px), z3bool(px < d)), 1, 0))
         dom = z3.And(z3bool(pt >= 0), z3bool(pt < T), z3bool(px >= 0), z3bool(px < L))
-        ok, m = eng.prove(z3.Implies(dom, z3.Sum(inside) == 1), 'tiling')
+        ok, m = prove(z3.Implies(dom, z3.Sum(inside) == 1), 'tiling')
         if not ok:
             fail('tiling', 'a point of the cylinder lies in %s leaves' % m.eval(z3.Sum(inside)), m)
         if not ref.is_tiling():
@@ -171,7 +172,7 @@ def check_state(eng, mesh, fail, want_tiling=True, want_vertices=True):
                         continue
                     same.append(z3bool(c))
         if same:
-            ok, m = eng.prove(z3.Not(z3.Or(same)), 'vertices')
+            ok, m = prove(z3.Not(z3.Or(same)), 'vertices')
             if not ok:
                 fail('vertices:coincide', 'two distinct dyadic coordinates coincide for some grid', m)
         # every leaf corner is a registered vertex object
